@@ -267,6 +267,23 @@ class Job:
             extra.append(T.b_or(*blk))
 
     def _violation(self, name, model, details, finding):
+        if not model and isinstance(details, dict) and details.get("replayer") and not details.get("_replayed"):
+            # an outcome that is concrete on the symbolic path (an accepted input, a dropped call ...), reported by a
+            # harness without a solver model: it is confirmed on the real code like any other counterexample first
+            import importlib
+            mod = importlib.import_module(f"bbverif.props.{self.pid.lower()}")
+            fn = getattr(mod, details["replayer"], None)
+            try:
+                ok, det = fn({}, **details.get("replayer_kwargs", {})) if fn else (False, {"what": "no such replayer"})
+            except Exception as ex:  # noqa: BLE001
+                ok, det = False, {"what": f"replay raised {ex!r}"}
+            if not ok:
+                self.errors.append(f"{name}: the symbolic run shows '{details.get('what', '')}' but the real code does not reproduce it "
+                                   f"({det.get('what', '')}) - shim or harness too weak")
+                self.record(name, "spurious", 0.0, None, "symbolic outcome not reproduced on the real code")
+                return
+            details = dict(det, symbolic_outcome=details.get("what"), replayer=details["replayer"],
+                           replayer_kwargs=details.get("replayer_kwargs", {}), _replayed=True)
         what = details.get("what", name) if isinstance(details, dict) else name
         if finding is not None:
             for k in load_known():
